@@ -10,7 +10,7 @@ from sa.report import ModelViolation, Report, Undecided
 _ACTIVE = []
 
 
-def include(rep, src, other_pid, rules, as_rule, clause):
+def include(rep, src, other_pid, rules, as_rule, clause, at_prefix=None):
     if other_pid in _ACTIVE or rep.pid in _ACTIVE[:-1]:
         return  # mutual inclusion: the outer run already decides that rule set
     mod = importlib.import_module(f"sa.props.{other_pid.lower()}")
@@ -33,6 +33,8 @@ def include(rep, src, other_pid, rules, as_rule, clause):
             rep.undecide(f"{as_rule} clause '{clause}' depends on {other_pid}: {u[:200]}")
     n = 0
     for f in sub.findings:
+        if at_prefix is not None and not str(f.at).startswith(at_prefix):
+            continue
         if rules is None or f.rule in rules:
             n += 1
             rep.violation(as_rule, f.at, f"{other_pid}/{f.rule}:{f.construct}", f"{clause}: {f.reason}", f.file, f.line, f.witness)
